@@ -481,9 +481,9 @@ def r5_library(chk):
         init = prog.method(ci, "__init__")
         chk.require(init is not None and init.cls == ci, f"{cname}.__init__ vanished")
         chk.analysed(init)
-        from ..canon import ifchain
+        from ..canon import Env, ifchain, lift_ifexp_assign, specialize
 
-        init = ifchain(init)  # this rule reads version dispatch as an if / elif chain
+        init = lift_ifexp_assign(ifchain(init))  # this rule reads version dispatch as an if / elif chain
         def binds(body, path):
             """values stored into `path` anywhere in body (tuple unpacking of a tuple display is element-wise)"""
             out = []
@@ -502,19 +502,41 @@ def r5_library(chk):
                             out.append(f"<unpacked from {norm(s.value)}>")
             return out
 
-        branches = []
+        # the version variable: the local that is compared with the integer constants 1 and 2
+        cmp_ = {}
         for s in ast.walk(init.node):
             if isinstance(s, ast.If) and isinstance(s.test, ast.Compare) and isinstance(s.test.left, ast.Name) and len(s.test.ops) == 1 and isinstance(s.test.ops[0], ast.Eq) \
-                    and isinstance(s.test.comparators[0], ast.Constant) and binds(s.body, "self._serializer"):
-                branches.append((s.test.comparators[0].value, s.body, s.test.left.id))
-        chk.require(len(branches) >= 2 and len({v for _, _, v in branches}) == 1, f"{cname}.__init__: version branches not found")
-        vvar = branches[0][2]
-        for ver, body, _ in branches:
-            ser = binds(body, "self._serializer")
-            des = binds(body, "self._deserializer")
+                    and isinstance(s.test.comparators[0], ast.Constant) and isinstance(s.test.comparators[0].value, int):
+                cmp_.setdefault(s.test.left.id, set()).add(s.test.comparators[0].value)
+        vv = [n for n, vs in cmp_.items() if 1 in vs]
+        chk.require(len(vv) == 1, f"{cname}.__init__: version branches not found")
+        vvar = vv[0]
+        # what the constructor stores as serializer / deserializer when the version is 1, when it is 2: the body specialised
+        # for that value, naming locals dissolved (if-chain, match, lookup table and codec records all end up here)
+        for ver in (1, 2):
+            body_v = specialize(init.node.body, vvar, ver, {})
+            mod_v = ast.Module(body=body_v, type_ignores=[])
+            env_v = Env(mod_v)
+            got = {}
+            for path in ("self._serializer", "self._deserializer"):
+                vals = []
+                for s in ast.walk(mod_v):
+                    if not isinstance(s, ast.Assign):
+                        continue
+                    for t in s.targets:
+                        if norm(t) == path:
+                            vals.append(norm(env_v.expand(s.value, at=s)))
+                        elif isinstance(t, ast.Tuple) and isinstance(s.value, ast.Tuple) and len(t.elts) == len(s.value.elts):
+                            for te, ve in zip(t.elts, s.value.elts):
+                                if norm(te) == path:
+                                    vals.append(norm(env_v.expand(ve, at=s)))
+                        elif isinstance(t, ast.Tuple) and any(norm(te) == path for te in t.elts):
+                            vals.append(f"<unpacked from {norm(s.value)}>")
+                got[path] = vals
+            ser, des = got["self._serializer"], got["self._deserializer"]
             want = (f"_serialize_{kind}_v{ver}", f"_deserialize_{kind}_v{ver}")
-            chk.decide((ser, des) == ([want[0]], [want[1]]), "C01.R5", f"{init.key}:v{ver}-pair", init.where(body[0]),
-                       f"{want[0]} / {want[1]}", f"version {ver} branch of {cname} assigns serializer {ser} and deserializer {des}; expected {want}")
+            chk.decide((ser, des) == ([want[0]], [want[1]]), "C01.R5", f"{init.key}:v{ver}-pair", init.where(),
+                       f"{want[0]} / {want[1]}", f"for version {ver} {cname} stores serializer {ser} and deserializer {des}; expected {want}")
         # the names must resolve to io.py's functions
         for ver in (1, 2):
             for fn in (f"_serialize_{kind}_v{ver}", f"_deserialize_{kind}_v{ver}"):
